@@ -48,6 +48,7 @@ Positions(w) == {<<t, k>> : t \in DOMAIN w, k \in 1..7 * 3} \cap {p \in (DOMAIN 
 FaultsNone(w) == {{}}
 FaultsOne(w) == {{}} \cup {{p} : p \in Positions(w)}
 FaultsOneT1(w) == {{}} \cup {{p} : p \in {x \in Positions(w) : x[1] = 1}}
+FaultsFew(w) == {{}} \cup {{<<1, k>>} : k \in {2, 6, 7, 13}}
 FaultsTwo(w) == FaultsOne(w) \cup {{p, q} : p, q \in Positions(w)}
 \* export: a fault at the outcome, at startTest, at stopTest of thread 1's first test, or at a run-level call
 FaultsX(w) == {{}, {<<1, 1>>}, {<<1, 2>>}, {<<2, 1>>}} \cup {{<<1, k>>} : k \in 5..7}
